@@ -17,6 +17,13 @@ CLAIMED = {
     note=TRUST + 'Not covered: iconv/ICU fallback path of encoding::valid / validate_or_filter (not compiled in this build), std::map dispatch by charset name, form.cpp call sites. '
          'validate_or_filter_utf8 is decided by a bounded stand-in in the quick tier (its unbounded proof is attempted in the thorough tier only).',
     design='4 (C14)', technique='cbmc code contracts (dfcc) + loop contracts on extracted C; ghost-index tiling argument'),
+ 'C19': dict(
+    text='The chunk reader/writer of cppcms::archive (next_chunk_size, read_chunk, read_chunk_as_string, write_chunk, eof) and the POD-vector load body are under contract: '
+         'for every archive content, length and cursor a read either throws or stays inside the archive bytes and returns exactly the payload; '
+         'write/read round trip at chunk level is a lemma over the two contracts. Loop-free code, so the proof is complete for all inputs.',
+    note=TRUST + 'Not covered: user serialize() graphs, smart pointers, STL containers other than POD vectors, JSON values, session/cache convenience wrappers (templates over STL outside the C front end). '
+         'std::string buffer_ is modelled as (pointer,length); write_chunk lengths above 2^32-1 are outside the contract.',
+    design='4 (C19)', technique='cbmc code contracts (dfcc) on extracted C; loop-free full-domain proof'),
 }
 
 NOT_APPLICABLE = {
